@@ -4,6 +4,7 @@ import XModel.Acyclic
 import XModel.ManagerC13
 import XModel.ManagerFn
 import XModel.ManagerC17
+import XModel.ManagerFnHist
 /-! JSON codec shared by the driver suites (Appendix A of DESIGN.md).  Total: malformed input is
     `none`, never defaulted. -/
 namespace Codec
